@@ -11,6 +11,7 @@ import (
 	"hash"
 	"hash/fnv"
 	"os"
+	"reflect"
 	"runtime"
 	"sort"
 	"strconv"
@@ -65,6 +66,16 @@ type gor struct {
 	curCall   int
 }
 
+// chanSt is what the scheduler knows about a channel beyond what the channel
+// itself tells (len, cap): whether it was closed through a hook, and whether
+// instrumented code ever sends on / closes it (if not, its producer is outside
+// the model: timers, contexts, ...).
+type chanSt struct {
+	ch       any // keeps the channel alive, so its address is never reused
+	closed   bool
+	internal bool
+}
+
 type lockSt struct {
 	writer  int
 	readers int
@@ -80,6 +91,7 @@ type sched struct {
 	gors    []*gor
 	locks   map[uintptr]*lockSt
 	conds   map[uintptr][]*gor // waiters per sync.Cond, in arrival order
+	chans   map[uintptr]*chanSt
 	addrIdx map[uintptr]int
 
 	step       int
@@ -101,6 +113,12 @@ type sched struct {
 	preempts   int
 	mapRanges  int
 	clockJumps int
+	stuckAtEnd bool
+	pairs      int
+	selects    int
+	fallbacks  int
+	aux        []uint32
+	auxIdx     int
 	fairKicks  int
 	condWaits  int
 	spawned    int
@@ -121,6 +139,7 @@ func newSched(seg *Segment, progress *atomic.Int64) *sched {
 		byTok:     map[uint64]*gor{},
 		locks:     map[uintptr]*lockSt{},
 		conds:     map[uintptr][]*gor{},
+		chans:     map[uintptr]*chanSt{},
 		addrIdx:   map[uintptr]int{},
 		h:         sha256.New(),
 		sig:       fnv.New64a(),
@@ -299,8 +318,116 @@ func (s *sched) canRun(g *gor) bool {
 		return l.writer == 0
 	case rt.KCondWait:
 		return g.signalled
+	case rt.KSendPre:
+		ok, _ := s.sendReady(m.Addr, m.Ch, g)
+		return ok
+	case rt.KRecvPre:
+		ok, _ := s.recvReady(m.Addr, m.Ch, g)
+		return ok
+	case rt.KSelectPre:
+		if m.Deflt {
+			return true
+		}
+		for i := 0; i < m.NCases; i++ {
+			if ok, _ := s.caseReady(&m.Cases[i], g); ok {
+				return true
+			}
+		}
+		return false
 	}
 	return true
+}
+
+func (s *sched) chanOf(addr uintptr, ch any) *chanSt {
+	c := s.chans[addr]
+	if c == nil {
+		c = &chanSt{ch: ch}
+		s.chans[addr] = c
+	}
+	return c
+}
+
+func chanLenCap(ch any) (int, int) {
+	v := reflect.ValueOf(ch)
+	if v.Kind() != reflect.Chan || v.IsNil() {
+		return 0, 0
+	}
+	return v.Len(), v.Cap()
+}
+
+// waiters returns the parked goroutines (other than except) that want to
+// receive from (recv=true) or send on addr: plain operations and selects.
+func (s *sched) waiters(addr uintptr, recv bool, except *gor) []*gor {
+	var ws []*gor
+	for _, g := range s.gors[1:] {
+		if g == except || g.msg == nil {
+			continue
+		}
+		switch g.msg.Kind {
+		case rt.KRecvPre:
+			if recv && g.msg.Addr == addr {
+				ws = append(ws, g)
+			}
+		case rt.KSendPre:
+			if !recv && g.msg.Addr == addr {
+				ws = append(ws, g)
+			}
+		case rt.KSelectPre:
+			for i := 0; i < g.msg.NCases; i++ {
+				c := &g.msg.Cases[i]
+				if c.Addr == addr && c.Send == !recv {
+					ws = append(ws, g)
+					break
+				}
+			}
+		}
+	}
+	return ws
+}
+
+// sendReady: can a send on the channel proceed without blocking, and does it
+// need a receiving partner released together with it?
+func (s *sched) sendReady(addr uintptr, ch any, g *gor) (ready, partner bool) {
+	if addr == 0 {
+		return false, false // nil channel: blocks forever
+	}
+	c := s.chanOf(addr, ch)
+	if c.closed {
+		return true, false // will panic, as it must
+	}
+	n, cp := chanLenCap(ch)
+	if n < cp {
+		return true, false
+	}
+	if cp == 0 && len(s.waiters(addr, true, g)) > 0 {
+		return true, true
+	}
+	return false, false
+}
+
+func (s *sched) recvReady(addr uintptr, ch any, g *gor) (ready, partner bool) {
+	if addr == 0 {
+		return false, false
+	}
+	c := s.chanOf(addr, ch)
+	n, cp := chanLenCap(ch)
+	if n > 0 {
+		return true, false
+	}
+	if c.closed {
+		return true, false
+	}
+	if cp == 0 && len(s.waiters(addr, false, g)) > 0 {
+		return true, true
+	}
+	return false, false
+}
+
+func (s *sched) caseReady(c *rt.SelCase, g *gor) (bool, bool) {
+	if c.Send {
+		return s.sendReady(c.Addr, c.Ch, g)
+	}
+	return s.recvReady(c.Addr, c.Ch, g)
 }
 
 func (s *sched) stalled(g *gor) bool {
@@ -446,10 +573,94 @@ func (s *sched) pick0(run []*gor) *gor {
 	}
 }
 
+// draw makes an auxiliary seeded choice (rendezvous partner, select clause):
+// recorded so that an explicit replay repeats it.
+func (s *sched) draw(n int) int {
+	k := 0
+	if s.seg.Replay {
+		if s.auxIdx < len(s.seg.Aux) {
+			k = int(s.seg.Aux[s.auxIdx])
+		}
+		s.auxIdx++
+		if n > 0 {
+			k %= n
+		}
+	} else {
+		k = s.rng.intn(n)
+	}
+	if s.seg.Record {
+		s.aux = append(s.aux, uint32(k))
+	}
+	return k
+}
+
+// partnerFor picks the goroutine that completes a rendezvous with g on addr
+// and the payload that goroutine must be released with.
+func (s *sched) partnerFor(g *gor, addr uintptr, wantRecv bool) (*gor, uint64) {
+	ws := s.waiters(addr, wantRecv, g)
+	if len(ws) == 0 {
+		return nil, 0
+	}
+	p := ws[s.draw(len(ws))]
+	var pay uint64
+	if p.msg.Kind == rt.KSelectPre {
+		for i := 0; i < p.msg.NCases; i++ {
+			c := &p.msg.Cases[i]
+			if c.Addr == addr && c.Send == !wantRecv {
+				pay = uint64(i)
+				break
+			}
+		}
+	}
+	return p, pay
+}
+
 func (s *sched) release(g *gor, run []*gor) {
 	m := g.msg
-	g.msg = nil
+	var partner *gor
+	var partnerPay uint64
 	var payload uint64
+	switch m.Kind {
+	case rt.KSendPre:
+		s.chanOf(m.Addr, m.Ch).internal = true
+		if _, need := s.sendReady(m.Addr, m.Ch, g); need {
+			partner, partnerPay = s.partnerFor(g, m.Addr, true)
+		}
+	case rt.KRecvPre:
+		if _, need := s.recvReady(m.Addr, m.Ch, g); need {
+			partner, partnerPay = s.partnerFor(g, m.Addr, false)
+		}
+	case rt.KClosePre:
+		if m.Addr != 0 {
+			c := s.chanOf(m.Addr, m.Ch)
+			c.closed = true
+			c.internal = true
+		}
+	case rt.KSelectPre:
+		var ready []int
+		var needs []bool
+		for i := 0; i < m.NCases; i++ {
+			if m.Cases[i].Send && m.Cases[i].Addr != 0 {
+				s.chanOf(m.Cases[i].Addr, m.Cases[i].Ch).internal = true
+			}
+			if ok, need := s.caseReady(&m.Cases[i], g); ok {
+				ready = append(ready, i)
+				needs = append(needs, need)
+			}
+		}
+		if len(ready) == 0 {
+			payload = ^uint64(0) // -1: default
+		} else {
+			k := s.draw(len(ready))
+			payload = uint64(ready[k])
+			if needs[k] {
+				c := &m.Cases[ready[k]]
+				partner, partnerPay = s.partnerFor(g, c.Addr, c.Send)
+			}
+			s.selects++
+		}
+	}
+	g.msg = nil
 	switch m.Kind {
 	case rt.KSpawn:
 		c := s.newGor(false)
@@ -555,6 +766,65 @@ func (s *sched) release(g *gor, run []*gor) {
 	s.step++
 	s.progress.Add(1)
 	m.Reply <- payload
+	if partner != nil && partner.msg != nil {
+		// the other party of the rendezvous goes at once: neither side ever blocks in the real operation
+		s.pairs++
+		pm := partner.msg
+		if pm.Kind == rt.KSelectPre {
+			// its select takes exactly the clause that matches
+		}
+		s.releasePaired(partner, partnerPay)
+	}
+}
+
+// releasePaired releases the second party of a rendezvous with a fixed payload.
+func (s *sched) releasePaired(g *gor, payload uint64) {
+	m := g.msg
+	g.msg = nil
+	if m.Kind == rt.KSendPre {
+		s.chanOf(m.Addr, m.Ch).internal = true
+	}
+	if s.seg.Record {
+		s.choices = append(s.choices, 0)
+	}
+	var rec [16]byte
+	binary.LittleEndian.PutUint32(rec[0:], uint32(g.id))
+	rec[4] = byte(m.Kind)
+	rec[5] = 1
+	binary.LittleEndian.PutUint32(rec[8:], uint32(m.Site))
+	s.h.Write(rec[:])
+	if g != s.last && s.last != nil {
+		s.switches++
+	}
+	s.sites[m.Site]++
+	lb := make([]byte, 0, 64)
+	lb = strconv.AppendInt(lb, int64(s.step), 10)
+	lb = append(lb, " g"...)
+	lb = strconv.AppendInt(lb, int64(g.id), 10)
+	lb = append(lb, '(')
+	lb = append(lb, g.role...)
+	lb = append(lb, ") "...)
+	lb = append(lb, m.Kind.String()...)
+	lb = append(lb, "+paired s"...)
+	lb = strconv.AppendInt(lb, int64(m.Site), 10)
+	lb = append(lb, " a"...)
+	lb = strconv.AppendInt(lb, int64(s.aidx(m.Addr)), 10)
+	lb = append(lb, " x"...)
+	lb = strconv.AppendUint(lb, payload, 10)
+	line := string(lb)
+	if s.traceFull {
+		s.trace = append(s.trace, line)
+	} else {
+		if len(s.trace) >= 400 {
+			s.trace = append(s.trace[:0], s.trace[200:]...)
+		}
+		s.trace = append(s.trace, line)
+	}
+	g.since = -1
+	s.last = g
+	s.step++
+	s.progress.Add(1)
+	m.Reply <- payload
 }
 
 type stopReason string
@@ -569,6 +839,9 @@ func (s *sched) loop(cond func() bool) stopReason {
 			return ""
 		}
 		run := s.runnable()
+		if len(run) == 0 && s.fallback() {
+			continue
+		}
 		if len(run) == 0 {
 			// maybe someone sleeps on the bubble's fake clock
 			woke := false
@@ -595,6 +868,30 @@ func (s *sched) loop(cond func() bool) stopReason {
 		}
 		s.release(s.pick(run), run)
 	}
+}
+
+// fallback: nothing can run according to the model. A goroutine waiting on a
+// channel that no instrumented code ever sends on or closes (a timer's
+// channel, a context's Done channel, ...) is let into the real operation: if
+// the channel is fed from outside the model it completes, otherwise the
+// goroutine blocks there durably and the verdict is reached without it.
+func (s *sched) fallback() bool {
+	for _, g := range s.gors[1:] {
+		m := g.msg
+		if m == nil || m.Addr == 0 {
+			continue
+		}
+		if m.Kind != rt.KRecvPre && m.Kind != rt.KSendPre {
+			continue
+		}
+		if s.chanOf(m.Addr, m.Ch).internal {
+			continue
+		}
+		s.fallbacks++
+		s.releasePaired(g, 0)
+		return true
+	}
+	return false
 }
 
 var outPath string
@@ -692,6 +989,10 @@ func (s *sched) fill(res *Result) {
 	res.Preempts = s.preempts
 	res.MapRanges = s.mapRanges
 	res.ClockJumps = s.clockJumps
+	res.Pairs = s.pairs
+	res.Selects = s.selects
+	res.Fallbacks = s.fallbacks
+	res.Aux = s.aux
 	res.FairKicks = s.fairKicks
 	res.Sites = map[string]int{}
 	for id, n := range s.sites {
@@ -837,8 +1138,10 @@ func runCalls(t *testing.T, seg *Segment, progress *atomic.Int64) {
 			reason = s.loop(func() bool { return !s.anyParked() })
 			rt.RaceEnable()
 			if reason == "deadlock" {
-				// parked goroutines that can never run (lock never released)
-				reason = "deadlock-after-return"
+				// every call has returned; goroutines that can never run again (waiting for a partner,
+				// a lock or a signal that will not come) are what the leak check below reports
+				reason = ""
+				s.stuckAtEnd = true
 			}
 		}
 		// who is still there?
